@@ -596,10 +596,13 @@ fn gen_c15_program(run_seed: u64, tier: Tier) -> TProgram {
     knobs.item_limit = 1024 * 1024;
     knobs.policy = Policy::Random;
     knobs.memory_limit = *rng.pick(&[80u64, 120, 200, 400, 1 << 40]);
-    let n_init = rng.range(2, 5) as usize;
-    let keys: Vec<Vec<u8>> = (0..n_init).map(|i| vec![b'k', b'0' + i as u8]).collect();
+    let n_init = rng.range(0, 4) as usize;
+    let mut keys: Vec<Vec<u8>> = (0..n_init).map(|i| vec![b'k', b'0' + i as u8]).collect();
+    if keys.is_empty() {
+        keys.push(vec![b'k', b'x']);
+    }
     let mut init = Vec::new();
-    for k in &keys {
+    for k in keys.iter().take(n_init) {
         init.push(InitOp::Req(SymReq::store(op::SET, k, Val::Fill { byte: b'i', len: rng.range(5, 40) as u32 }, 0, 0, CasSel::Zero)));
     }
     let n_clients = rng.range(2, 3) as usize;
@@ -616,8 +619,10 @@ fn gen_c15_program(run_seed: u64, tier: Tier) -> TProgram {
             tag += 1;
             opaque += 1;
             let mut r = match rng.below(8) {
-                0..=3 => SymReq::store(op::SET, &[b'n', b'a' + tag], Val::Fill { byte: b'a' + tag, len: rng.range(5, 60) as u32 }, 0, 0, CasSel::Zero),
-                4..=6 => SymReq::delete(op::DELETE, &keys[rng.usize(keys.len())], CasSel::Zero),
+                0..=3 => SymReq::store(op::SET, &[b'n', b'a' + tag], Val::Fill { byte: b'a' + tag, len: *rng.pick(&[5u32, 20, 60, 200]) }, 0, 0, CasSel::Zero),
+                // (a delete may also aim at a fresh key that another client is storing right now)
+                4 | 5 => SymReq::delete(op::DELETE, &keys[rng.usize(keys.len())], CasSel::Zero),
+                6 => SymReq::delete(op::DELETE, &[b'n', b'a' + rng.range(1, 9) as u8], CasSel::Zero),
                 _ => SymReq::get(op::GET, &keys[rng.usize(keys.len())]),
             };
             r.opaque = opaque;
